@@ -32,7 +32,30 @@ def domains():
         "dhGroups": list(H.ALL_DH_GROUP_NAMES), "rsaSigHashes": list(H.ALL_RSA_SIGNATURE_HASHES),
         "ecdsaSigHashes": list(H.ECDSA_SIGNATURE_HASHES), "dsaSigHashes": list(H.DSA_SIGNATURE_HASHES),
         "rsaSchemes": list(H.RSA_SCHEMES), "psk_modes": list(H.PSK_MODES),
+        "certificate_compression_send": ["zlib", "brotli", "zstd"], "certificate_compression_receive": ["zlib", "brotli", "zstd"],
     }
+
+
+def codecs():
+    """certificate compression codecs of this installation, established without tlslite's own tables"""
+    import importlib
+    import os as _os
+
+    def has(mod, attr=None):
+        try:
+            m = importlib.import_module(mod)
+            return attr is None or hasattr(m, attr)
+        except ImportError:
+            return False
+    send, recv = ["zlib"], ["zlib"]
+    if has("brotli", "compress"):
+        send.append("brotli")
+    if has("brotli", "decompress") or _os.path.isdir(_os.path.join(env.REPO, "tlslite", "utils", "brotlidecpy")):
+        recv.append("brotli")
+    if has("zstandard") or has("zstd"):
+        send.append("zstd")
+        recv.append("zstd")
+    return send, recv
 
 
 def edits_for(attr, default, dom):
@@ -193,7 +216,7 @@ def run(tier):
     with Pool(16) as pool:
         outs = pool.map(_work, cases, chunksize=64)
     cfg = {"ev": "CFG", "impls": ["python"] + (["openssl"] if cryptomath.m2cryptoLoaded else []) + (["pycrypto"] if cryptomath.pycryptoLoaded else []),
-           "tdes": bool(cipherfactory.tripleDESPresent)}
+           "tdes": bool(cipherfactory.tripleDESPresent), "compSend": codecs()[0], "compRecv": codecs()[1]}
     traces = []
     for o in outs:
         if "crash" in o:
